@@ -16,12 +16,17 @@ Oracle.  The postconditions are written from the property statement and docs/ref
     specifies get the class default; every specifier is evaluated at most once and only when all the properties
     it depends on already have their FINAL value.
 
-The body is executed for EVERY permutation of the input list (one contract instance per permutation, so that
-they run in parallel); as the expected outcome does not mention the order, proving all instances proves
-order-independence.  A relational instance additionally runs the body on two orders in one path and compares.
+The body is executed for EVERY permutation of the input list (the permutation is a universally explored choice of
+the contract's setup); as the expected outcome does not mention the order, proving all paths proves
+order-independence.  A relational instance additionally runs the body on two orders in one path and compares, and
+an UNBOUNDED instance proves the phase-1 loop (symbolic-length list, loop invariant over the processed prefix).
 
 Bounds (stated in the notes of the contracts): number of specifiers / properties is bounded, priorities are
-symbolic integers (exact), presence of a property in a specifier is enumerated exhaustively."""
+symbolic integers (exact), presence of a property in a specifier is enumerated exhaustively.
+
+Known on the unchanged tree (both replay on the real code, see the drivers below): (F6) tie detection only compares
+with the running minimum, so priorities (3, 1, 3) are accepted and (3, 3, 1) rejected; a modifying specifier may
+specify a final property (the final check is only made for non-modifying specifiers)."""
 import itertools
 import os
 import re
@@ -30,10 +35,9 @@ import z3
 
 from pyvc import contracts as C
 from pyvc import models_spec
-from pyvc.builtins_model import get_attr
 from pyvc.interp import BuiltinFn, SymRaise
 from pyvc.models_spec import namespace_items
-from pyvc.values import PDict, PList, PObj, PSet, SV, compare, sv_and, sv_not, sv_or, tobool
+from pyvc.values import PDict, PList, PObj, PSet, SV, compare, tobool
 
 from .common import repo_class
 
@@ -326,6 +330,18 @@ def check_outcome(I, world, outcome, name, with_graph=False):
 
 def install_stubs(reg):
     models_spec.install(reg)
+    reg.trust(
+        "specifier model objects (C06 _resolveSpecifiers / dfs contracts)",
+        "inputs are heap objects of the real Specifier / ModifyingSpecifier classes built field by field (name, priorities, requiredProperties, modifiable_props, "
+        "value = DelayedArgument-shaped object whose value function logs the evaluation context); their constructors are verified separately; property values are identity tokens",
+    )
+    reg.trust(
+        "unbounded phase-1 contract",
+        "list(<symbolic-length sequence>) is a list with the same elements; collections.Counter over the names finds no duplicate (requires: pairwise different specifier names); "
+        "spec.priorities of element i is {'p': prio(i)} if has(i) else {} (one property name); the loop cut havocs the tables `properties`/`priorities` "
+        "(and the table of seen priorities if the function keeps one, abstracted as a membership predicate); the path is cut in front of phase 2",
+    )
+    reg.trust("type(x) on model containers", "constructor contracts: type(<dict/tuple/list model>) is the corresponding callable builtin, so that toLazyValue's `type(thing)(items)` rebuilds a model container")
 
 
 
@@ -588,6 +604,234 @@ def register_relational(reg):
     )
     holder["contract"] = c
     reg.add(c, key=f"{RESOLVE}[{tag}]")
+
+
+# =================================================================================================
+# (1d) UNBOUNDED phase 1: symbolic-length specifier list, loop invariant over the processed prefix (one property)
+# =================================================================================================
+
+
+def tonum_(x):
+    from pyvc.values import tonum
+
+    return tonum(x)
+
+
+class SymPrio:
+    """`spec.priorities` of element i of a symbolic-length list: {"p": prio(i)} if has(i) else {} (the dictionary is keyed
+    by property, so reasoning about one property name is exact for the priority loop)."""
+
+    def __init__(self, o):
+        self.o = o
+
+
+class SymSetDict:
+    """Abstraction of a `defaultdict(set)` keyed by property whose sets hold integers (priorities already seen): the set for
+    "p" is a membership predicate.  Only used when the function under contract has such a table (the candidate repair
+    of the tie detection does); `pred` maps a z3 Int to a z3 Bool."""
+
+    def __init__(self, pred):
+        self.pred = pred
+
+
+class SymSet:
+    def __init__(self, owner):
+        self.owner = owner
+
+
+def install_symprio_hooks(reg):
+    prev_iter, prev_getitem, prev_contains, prev_getattr = reg.iterate_fallback, reg.getitem_fallback, reg.contains_fallback, reg.getattr_fallback
+
+    def getattr_fb(I, obj, name):
+        if isinstance(obj, SymSet) and name == "add":
+            def add(x):
+                old, zx = obj.owner.pred, tonum_(x)
+                obj.owner.pred = lambda k, old=old, zx=zx: z3.Or(old(k), k == zx)
+
+            return BuiltinFn("set.add", add)
+        return prev_getattr(I, obj, name)
+
+    reg.getattr_fallback = getattr_fb
+
+    def iterate_fb(I, v):
+        if isinstance(v, SymPrio):
+            return ["p"] if I.eng.branch(tobool(v.o.fields["has"])) else []
+        return prev_iter(I, v)
+
+    def getitem_fb(I, obj, idx):
+        if isinstance(obj, SymSetDict):
+            return SymSet(obj)
+        if isinstance(obj, SymPrio):
+            if idx != "p":
+                I.raise_("KeyError", idx)
+            I.eng.events.append(("priority-read", obj.o))
+            return obj.o.fields["prio"]
+        return prev_getitem(I, obj, idx)
+
+    def contains_fb(I, container, x):
+        if isinstance(container, SymSet):
+            return SV(container.owner.pred(tonum_(x)))
+        if isinstance(container, SymPrio):
+            return container.o.fields["has"] if x == "p" else False
+        return prev_contains(I, container, x)
+
+    reg.iterate_fallback, reg.getitem_fallback, reg.contains_fallback = iterate_fb, getitem_fb, contains_fb
+
+
+def register_unbounded_phase1(reg):
+    from pyvc.builtins_model import NativeModule
+    from pyvc.engine import PathEnd
+    from pyvc.interp import SpecFn
+    from pyvc.values import SSeq, tonum
+
+    install_symprio_hooks(reg)
+    name = f"{SHORT}[phase 1, any number of specifiers]"
+
+    def list_model(I, x=()):
+        if isinstance(x, SSeq) and not isinstance(x.length, int):
+            return SSeq(x.length, x.elem, "list", x.name)
+        return I.builtins["list"].fn(x)
+
+    def counter_model(I, it=()):
+        return PDict()  # requires: the names of the specifiers are pairwise different (no "modify itself" error)
+
+    SPECS = C.ObjSeq(f"{SP}:Specifier", dict(has="bool", prio="int", priorities=lambda o: SymPrio(o), name=lambda o: "distinct-name", requiredProperties=lambda o: ()))
+
+    def make_cls(eng):
+        cls = PObj(repo_class(f"{OT}:Constructible"), tag="cls")
+        cls.fields.update(_defaults=PDict(), _finalProperties=PSet((), frozen=True), __name__="C")
+        return cls
+
+    # havoc of the two dictionaries at the loop cut: either nobody gave p so far, or p is owned by some processed element
+    def havoc_properties(I, env):
+        seq = env.lookup("normal_specifiers")
+        if I.eng.choose(2, "p already specified by a processed specifier?") == 0:
+            I._ph1 = None
+            return PDict()
+        owner = I.eng.fresh_int("owner")
+        best = I.eng.fresh_int("best")
+        I._ph1 = (owner, best)
+        return PDict([("p", seq.elem(owner))])
+
+    def havoc_priorities(I, env):
+        return PDict() if I._ph1 is None else PDict([("p", I._ph1[1])])
+
+    def cut(I, env):
+        raise PathEnd()  # phases 2-5 are the subject of the bounded contracts
+
+    def havoc_seen(I, env):
+        # only if the function keeps a table of the priorities already seen (the repaired tie detection does)
+        if not env.has("seenPriorities") or env.lookup("seenPriorities") is None:
+            return None
+        fn = z3.Function(I.eng.fresh_name("seen"), z3.IntSort(), z3.BoolSort())
+        return SymSetDict(lambda k, fn=fn: fn(k))
+
+    def inv_seen(ctx):
+        """seenPriorities["p"] == { prio(j) | j < _i, has(j) }   (vacuous when the function has no such table)"""
+        from pyvc.models_spec import PDefaultDict
+
+        if not ctx.env.has("seenPriorities"):
+            return True
+        sp = ctx.env.lookup("seenPriorities")
+        if sp is None:
+            return True
+        i, seq = ctx.env.lookup("_i"), ctx.env.lookup("_seq")
+        v, j = z3.Int("v!seen"), z3.Int("j!seen")
+        if isinstance(sp, SymSetDict):
+            member = sp.pred(v)
+        elif isinstance(sp, PDefaultDict):
+            cur = sp.inner.get("p")
+            member = z3.Or(*[v == tonum(x) for x in (cur.items if cur is not None else [])]) if (cur is not None and cur.items) else z3.BoolVal(False)
+        else:
+            return False
+        e = seq.elem(SV(j))
+        ex = z3.Exists([j], z3.And(j >= 0, j < tonum(i), tobool(e.fields["has"]), tonum(e.fields["prio"]) == v))
+        return SV(z3.ForAll([v], member == ex))
+
+    @reg.spec
+    def at(seq, j):  # element j of a symbolic sequence, for indices known to be in range (no negative-index normalisation)
+        return seq.elem(j)
+
+    inv = {
+        "set_iff_some_processed_specifier_gives_p": '("p" in properties) == exists(j, 0, _i, at(_seq, j).has)',
+        "owner_is_a_processed_specifier_with_the_recorded_priority": 'implies("p" in properties, exists(o, 0, _i, at(_seq, o).has and priorities["p"] == at(_seq, o).prio and properties["p"] is at(_seq, o)))',
+        "recorded_priority_is_the_minimum_so_far": 'implies("p" in properties, forall(j, 0, _i, implies(at(_seq, j).has, at(_seq, j).prio >= priorities["p"])))',
+        "no_two_processed_specifiers_give_p_the_same_priority": "forall(j, 0, _i, forall(k, 0, _i, implies(j != k and at(_seq, j).has and at(_seq, k).has, at(_seq, j).prio != at(_seq, k).prio)))",
+        "table_of_seen_priorities_is_exact_if_the_function_keeps_one": inv_seen,
+    }
+    n_ = "len(normal_specifiers)"
+    ns = "normal_specifiers"
+    post_phase1 = {
+        "p_specified_iff_some_specifier_gives_it": f'("p" in properties) == exists(j, 0, {n_}, at({ns}, j).has)',
+        "p_belongs_to_a_specifier_of_minimum_priority_number": f'implies("p" in properties, exists(o, 0, {n_}, at({ns}, o).has and properties["p"] is at({ns}, o) and priorities["p"] == at({ns}, o).prio) and forall(j, 0, {n_}, implies(at({ns}, j).has, at({ns}, j).prio >= priorities["p"])))',
+        "no_error_only_if_no_two_specifiers_give_p_the_same_priority": f"forall(j, 0, {n_}, forall(k, 0, {n_}, implies(j != k and at({ns}, j).has and at({ns}, k).has, at({ns}, j).prio != at({ns}, k).prio)))",
+    }
+
+    def post(I, env, outcome):
+        eng = I.eng
+        if outcome[0] != "raise":
+            return
+        eng.check(f"{name}#raises.only_SpecifierError", exc_name(outcome[1]) == "SpecifierError", detail=repr(outcome[1]))
+        reads = [e[1] for e in eng.events if e[0] == "priority-read"]
+        ok = bool(reads)
+        if ok:
+            cur = reads[-1]
+            seq = env.vars["specifiers"]
+            k = z3.Int("k!other")
+            me = tonum(cur.ident[1])
+            other = seq.elem(SV(k))
+            g = z3.Exists([k], z3.And(k >= 0, k < tonum(seq.length), k != me, tobool(other.fields["has"]), tonum(other.fields["prio"]) == tonum(cur.fields["prio"])))
+            eng.check(f"{name}#raises.SpecifierError.only_if_another_specifier_gives_p_the_same_priority", z3.And(tobool(cur.fields["has"]), g))
+        else:
+            eng.check(f"{name}#raises.SpecifierError.only_if_another_specifier_gives_p_the_same_priority", False)
+
+    reg.add(
+        C.Contract(
+            RESOLVE,
+            params=dict(cls=C.Const(make_cls), specifiers=SPECS),
+            loops={
+                2: dict(invariants=inv, modifies={"properties": havoc_properties, "priorities": havoc_priorities, "seenPriorities": havoc_seen, "spec": None, "prop": None}),
+                4: dict(invariants=post_phase1, modifies={"cut": cut}),
+            },
+            post=post,
+            raises=[C.Raises("SpecifierError", mode="may")],
+            env={"list": SpecFn(list_model, "list", needs_interp=True), "collections": NativeModule("collections", {"Counter": SpecFn(counter_model, "Counter", needs_interp=True), "defaultdict": SpecFn(lambda I, factory=None: models_spec.PDefaultDict(factory), "defaultdict", needs_interp=True)})},
+            note="UNBOUNDED in the number of specifiers (symbolic-length list, symbolic presence and priorities); one property name p (the tables are keyed by property); no modifying specifiers, "
+            "pairwise different specifier names, no final properties; the postcondition of phase 1 is checked at the cut in front of phase 2 (phases 2-5: bounded contracts)",
+            replay=replay_unbounded,
+            properties=("C06",),
+        ),
+        key=f"{RESOLVE}[phase 1, any number of specifiers]",
+    )
+    reg.contracts[f"{RESOLVE}[phase 1, any number of specifiers]"].short = name
+
+
+def replay_unbounded(inputs, clause):
+    """The model is a list of (has, prio); the real function is run on the list and on each of its prefixes."""
+    from scenic.core.errors import SpecifierError
+    from scenic.core.object_types import Constructible
+    from scenic.core.specifiers import Specifier
+
+    cls = type("ReplayUnbounded", (Constructible,), {"_scenic_properties": {}})
+    elems = [(bool(e.get("has")), int(e.get("prio", 0))) for e in inputs["specifiers"]][:8]
+    cands = [elems[:n] for n in range(len(elems), 1, -1)]
+    if not any(len([1 for h, _ in c if h]) >= 2 for c in cands):
+        cands.append([(True, 3), (True, 1), (True, 3)])  # the refutation pass may have dropped quantified hypotheses: standard witness shape
+    for c in cands:
+        for order in itertools.islice(itertools.permutations(range(len(c))), 120):
+            specs = [Specifier(f"s{i}", ({"p": c[i][1]} if c[i][0] else {}), ({"p": f"v{i}"} if c[i][0] else {})) for i in order]
+            given = [c[i][1] for i in order if c[i][0]]
+            tie = len(set(given)) != len(given)
+            try:
+                props, _ = cls._resolveSpecifiers(specs)
+                if tie:
+                    return f"real _resolveSpecifiers accepted specifiers giving p the priorities {given} (two of them equal) and chose {props.get('p')}"
+                if given and props.get("p") != f"v{[i for i in order if c[i][0] and c[i][1] == min(given)][0]}":
+                    return f"real _resolveSpecifiers chose {props.get('p')} for priorities {given}"
+            except SpecifierError as e:
+                if not tie:
+                    return f"real _resolveSpecifiers raised SpecifierError({e}) for priorities {given} (no two equal)"
+    return None
 
 
 # =================================================================================================
@@ -924,7 +1168,7 @@ def replay_resolve(inputs, clause):
             continue
         if want == "SpecifierError":
             msg = f"{where} returned {_short(got)} although {why}"
-            scen = _scenic_demo_tie() if "same priority" in (why or "") else None
+            scen = _scenic_demo_tie() if "same priority" in (why or "") else _scenic_demo_final() if "final property" in (why or "") else None
             return msg + (f"; {scen}" if scen else "")
         for p, (sp, mo) in want.items():
             tok = got.get(p)
@@ -951,6 +1195,24 @@ def replay_resolve(inputs, clause):
 
 def _short(props):
     return {p: (t[1] if t[3] is None else f"{t[1]}({t[3][1]})") for p, t in props.items()}
+
+
+def _scenic_demo_final():
+    """The same defect through the front end: the modifying specifier `on` may set a property declared final."""
+    try:
+        import scenic
+
+        base = "workspace = Workspace(RectangularRegion((0,0,0), 0, 200, 200))\nclass Foo(Object):\n    position[final]: (1, 2, 3)\nego = new Object at (50, 50, 0)\n"
+        res = []
+        for tail in ("x = new Foo at (5, 5, 0)\n", "x = new Foo on RectangularRegion((0,0,0), 0, 20, 20)\n"):
+            try:
+                sc = scenic.scenarioFromString(base + tail, mode2D=False)
+                res.append(f"accepted (position = {sc.objects[-1].position})")
+            except Exception as e:
+                res.append(f"{type(e).__name__}({e})")
+        return f"Scenic program with `class Foo(Object): position[final]: (1, 2, 3)`: `new Foo at (5, 5, 0)` gives {res[0]} while `new Foo on RectangularRegion(...)` is {res[1]}"
+    except Exception as e:  # pragma: no cover - demo only
+        return f"(front-end demonstration failed: {type(e).__name__}: {e})"
 
 
 def _scenic_demo_tie():
@@ -1731,7 +1993,8 @@ def reference_cases():
         ("contained in *region*", "ContainedIn", lambda: dict(region=_region("R", False)), False, "contained in <region without preferred orientation>"),
         ("on (*region* | *Object* | *vector*)", "On", lambda: dict(thing=_region("R", True)), True, "on <region with preferred orientation>"),
         ("on (*region* | *Object* | *vector*)", "On", lambda: dict(thing=_region("R", False)), False, "on <region without preferred orientation>"),
-        ("on (*region* | *Object* | *vector*)", "On", lambda: dict(thing=obj()), False, "on <Object>"),
+        ("on (*region* | *Object* | *vector*)", "On", lambda: dict(thing=obj()), False, "on <Object whose onSurface has no preferred orientation>"),
+        ("on (*region* | *Object* | *vector*)", "On", lambda: dict(thing=absval("OBJ", "Object", onSurface=_region("OBJ.onSurface", True))), True, "on <Object whose onSurface has a preferred orientation>"),
         ("on (*region* | *Object* | *vector*)", "On", lambda: dict(thing=vec()), False, "on <vector>"),
         ("offset by *vector*", "OffsetBy", lambda: dict(offset=vec()), None, "offset by <vector>"),
         ("offset along *direction* by *vector*", "OffsetAlongSpec", lambda: dict(direction=absval("H", "float"), offset=vec()), None, "offset along <heading> by <vector>"),
@@ -1875,6 +2138,9 @@ def replay_reference(inputs, clause):
         for k, a in build().items():
             kwargs[k] = real[a.typ](a) if isinstance(a, Opaque) else a
         spec = getattr(v, ctor)(**kwargs)
+        if ctor == "On" and isinstance(kwargs.get("thing"), v.Object):
+            # which of the two abstract Object cases a real object falls in is decided by its onSurface
+            want, wdeps, wmods = expected_entry(doc, title, kwargs["thing"].onSurface.orientation is not None)
         got = {("<given>" if k == "foo" else k): p for k, p in spec.priorities.items() if not k.startswith("_")}
         gdeps = set(spec.requiredProperties)
         gmods = set(getattr(spec, "modifiable_props", ()))
@@ -1897,6 +2163,7 @@ def register(reg):
     register_priorities(reg)
     register_dependencies(reg)
     register_relational(reg)
+    register_unbounded_phase1(reg)
     register_constructors(reg)
     register_prepare(reg)
     register_dfs(reg)
